@@ -118,6 +118,64 @@ def predictions(r):
     return rows
 
 
+# ---- life-cycle cases: server restart (ServerRestart.tla), client Stop (ClientStop.tla), keep-alive timer (KeepAliveTimer.tla)
+
+LIFE = {
+    # kind: (module, cases file, outcomes file, key fields, fields that are information only)
+    "timer": ("KeepAliveTimer", "timer_cases.ndjson", "timer_outcomes.ndjson", ("script", "hold", "late"), ("played", "ticks")),
+    "restart": ("ServerRestart", "restart_cases.ndjson", "restart_outcomes.ndjson", ("proto", "script", "timing"), ("c2",)),
+    "stop": ("ClientStop", "stop_cases.ndjson", "stop_outcomes.ndjson", ("client", "scenario", "ending"), ()),
+}
+LOOPS = ("recv", "send", "read", "state")
+
+
+def _freeze(v):
+    return tuple(v) if isinstance(v, list) else v
+
+
+def life_rows(kind, r):
+    """cases + outcomes of one life-cycle module -> one row per case with the distinct observations TLC reached
+    (at = "rest" / "end"); a case whose observations differ between behaviours is run several times."""
+    mod, cases_f, outs_f, keyf, info = LIFE[kind]
+    cases_p, outs_p = os.path.join(r.dir, cases_f), os.path.join(r.dir, outs_f)
+    for p in (cases_p, outs_p):
+        if not os.path.exists(p) or os.path.getsize(p) == 0:
+            raise vlib.MachineryError("%s produced no %s" % (mod, os.path.basename(p)))
+    cases = {}
+    for c in vlib.read_ndjson(cases_p):
+        cases[tuple(_freeze(c[f]) for f in keyf)] = (c, {})
+    for row in vlib.read_ndjson(outs_p):
+        if isinstance(row, str):
+            row = json.loads(row)
+        k = tuple(_freeze(row[f]) for f in keyf)
+        if k not in cases:
+            raise vlib.MachineryError("%s: observation of an unknown case: %s" % (mod, k))
+        row.setdefault("at", "end")
+        obs = {f: v for f, v in row.items() if f not in keyf and f not in info}
+        if kind == "stop" and obs["at"] == "rest":
+            # at rest the driver attributes the engine loops to the protocol under test (receiver pointer), nothing else
+            obs["alive"] = sorted(x for x in obs["alive"] if x in LOOPS)
+            obs.pop("up", None)
+        for f, v in obs.items():
+            if isinstance(v, list):
+                obs[f] = sorted(v)
+        cases[k][1][json.dumps(obs, sort_keys=True)] = obs
+    rows = []
+    for i, k in enumerate(sorted(cases, key=lambda k: json.dumps(k))):
+        c, preds = cases[k]
+        if not any(o["at"] == "end" for o in preds.values()):
+            raise vlib.MachineryError("%s: case without terminal state: %s" % (mod, k))
+        row = dict(c)
+        row["idx"] = i
+        row["pred"] = [preds[x] for x in sorted(preds)]
+        ends = [o for o in row["pred"] if o["at"] == "end"]
+        rests = [o for o in row["pred"] if o["at"] == "rest"]
+        if len(ends) > 1 or len(rests) > 1:
+            row["repeat"] = 3
+        rows.append(row)
+    return rows
+
+
 def _tlc(chk, cfg, table_path, timeout, workers=1, coverage=False, add=True):
     r = vlib.run_tlc("net/ClientApi", cfg=cfg, files=[table_path], timeout=timeout, workers=workers,
                      deadlock=False, coverage=coverage)
